@@ -299,6 +299,13 @@ def malformed_xml_scenarios():
                 doc = eol.join(lines[:k] + [bad]) + eol
                 out.append(Scenario(doc, [], mode="dig", expect={"dig": "err"},
                                     note="malformed XML %r on row %d, line ends %r" % (bad, k + 1, eol)))
+    for eol in ("\n", "\r\n", ""):
+        for tail in ("<!-- cut off", "<![CDATA[ cut off", "<visualElement", "<a b=\"c", "text \u00e4\u00f6", "<a>&amp", "<?pi"):
+            for k in (1, 3, 6):
+                out.append(Scenario("\n".join(lines[:k] + [tail]) + eol, [], mode="dig", expect={"dig": "err"},
+                                    note="document cut off inside %r after %d lines, final line end %r" % (tail, k, eol)))
+                out.append(Scenario("\r\n".join(lines[:k] + [tail]) + eol + eol, [], mode="dig", expect={"dig": "err"},
+                                    note="CRLF document cut off inside %r, two trailing line ends %r" % (tail, eol)))
     # text lines that END in characters of 2, 3 and 4 bytes, the error on the row below (rows 2 .. 12): a line start that is
     # off by a few bytes lands inside one of them
     tails = ["\u00df", "\u4fe1", "\U0001F600", "\u00fc\u00df", "\u53f7\u00df", "x\U0001F600\u00e9"]
